@@ -738,11 +738,13 @@ theorem iteAux_d {cond : LinComb} (C : SCtx W) : ∀ (fuel : Nat) {t f r : Val} 
       exact L.refl ht
     · split at h
       · split at h
-        · obtain ⟨rs, s1, h1, h⟩ := bind_ok.mp h
+        · obtain ⟨_, h⟩ := ite_else_raise_ok h          -- `len(truev) == len(falsev)`
+          obtain ⟨rs, s1, h1, h⟩ := bind_ok.mp h
           obtain ⟨rfl, rfl⟩ := pure_ok' h
           obtain ⟨le1, f1, L1, g1⟩ := hz _ _ _ _ _ L hc (DV_list.mp ht) (DV_list.mp hf) h1
           exact ⟨le1, f1, L1, DV_list.mpr g1⟩
-        · obtain ⟨rs, s1, h1, h⟩ := bind_ok.mp h
+        · obtain ⟨_, h⟩ := ite_else_raise_ok h
+          obtain ⟨rs, s1, h1, h⟩ := bind_ok.mp h
           obtain ⟨rfl, rfl⟩ := pure_ok' h
           obtain ⟨le1, f1, L1, g1⟩ := hz _ _ _ _ _ L hc (DV_list.mp ht) (DV_tuple.mp hf) h1
           exact ⟨le1, f1, L1, DV_list.mpr g1⟩
